@@ -152,7 +152,7 @@ inductive Label where
   -- environment
   | offer | sigFire | endIncoming | acceptErr
   | issue (c : Nat) (chunks : List (List Item))
-  | permit (c j : Nat) | freeRun | peerDrop (c : Nat) | cancel (c j : Nat) | ageTick
+  | permit (c j : Nat) | freeRun | peerDrop (c : Nat) | cancel (c j : Nat) | ageTick (c : Nat)
   -- tonic: serve_internal
   | loopSig | loopAccept (c : Nat) | loopErr | loopEnd | afterLoop | resolve
   -- tonic: serve_connection
@@ -166,7 +166,7 @@ deriving Repr
 from peers, the scenario and the clock. -/
 def Label.internal : Label → Bool
   | .offer | .sigFire | .endIncoming | .acceptErr | .issue .. | .permit .. | .freeRun
-  | .peerDrop .. | .cancel .. | .ageTick => false
+  | .peerDrop .. | .cancel .. | .ageTick .. => false
   | _ => true
 
 def updConn (s : State) (c : Nat) (guard : Conn → Bool) (f : Conn → Conn) : Option State :=
@@ -210,10 +210,11 @@ def step (s : State) : Label → Option State
       (fun cn => { cn with peerGone := true,
                            calls := cn.calls.map (fun k => { k with cancelled := true }) })
   | .cancel c j => updCall s c j (fun _ _ => true) (fun k => { k with cancelled := true })
-  | .ageTick =>
+  | .ageTick c =>
+    -- virtual time passes: the `max_connection_age` sleep of connection `c` (armed when the
+    -- connection task was spawned) has elapsed
     if s.cfgAge then
-      some { s with conns := s.conns.map (fun cn =>
-        if cn.accepted && !cn.closed then { cn with ageReady := true } else cn) }
+      updConn s c (fun cn => cn.accepted && !cn.closed) (fun cn => { cn with ageReady := true })
     else none
   -- ---------------------------------------------------------------- serve_internal
   | .loopSig =>
